@@ -452,6 +452,36 @@ def run(prog, check):
                  "a flow 'W/P': F and INC must hold W/P, not P/W")
     # ---- W -----------------------------------------------------------------------------------------
     who_may_write(prog, check, 'C06.W', cash_raw)
+    # ---- R2 (cont.): a flow registered on the model books each leg with that leg's own income flag ----------------
+    from ._common import registration_always_recorded
+    from .. import effects as _eff
+    for rf_, ok_, why_ in registration_always_recorded(prog, 'RegisteredCashFlows', 5):
+        check.saw(rf_)
+        check.ob('C06.R2', '%s::registered-flow-recorded-with-both-flags' % rf_.key, ok_, rf_.where, why_,
+                 'RegisterCashFlow(a, b, x, is_income_source=False, is_income_dest=True)')
+    mcls_ = prog.cls('Model')
+    gen_ = prog.resolve_method(mcls_, '_GenerateRegisteredCashFlows')
+    if gen_ is None:
+        raise AnalysisError('Model._GenerateRegisteredCashFlows not found')
+    check.saw(gen_)
+    it_ = _eff.run_method(prog, mcls_, '_GenerateRegisteredCashFlows')
+    legs_ = {0: [], 1: []}
+    for e_ in it_.effects:
+        if e_.kind == 'cashflow':
+            rk_ = e_.role.key()
+            if len(rk_) == 4 and rk_[1] == 'loop' and 'registered_flows' in str(rk_[2]) and rk_[3] in (0, 1):
+                legs_[rk_[3]].append(e_)
+    for i_, nm_ in ((0, 'source'), (1, 'target')):
+        want_ = ('P', 'elem', 'registered_flows()', 3 + i_)
+        bad_ = [e_ for e_ in legs_[i_] if not (hasattr(e_.income, 'key') and e_.income.key() == want_)]
+        ok_ = bool(legs_[i_]) and not bad_
+        check.ob('C06.R2', '%s::registered-flow-income-flag(%s)' % (gen_.key, nm_), ok_, bad_[0].where if bad_ else gen_.where,
+                 'the %s leg is booked with the flag registered for the %s' % (nm_, nm_) if ok_ else
+                 ('the %s leg is booked with `%s` as its income flag, not with the flag registered for the %s: its INC gets (or misses) the flow'
+                  % (nm_, bad_[0].income.show() if hasattr(bad_[0].income, 'show') else bad_[0].income, nm_)) if bad_ else
+                 'no booking of the %s leg found' % nm_,
+                 'a dividend: not income-relevant for the payer, income for the receiver')
+
     check.floor('C06.R1', 2)
     check.floor('C06.R2', 3)
     check.floor('C06.R3', 4)
